@@ -915,7 +915,8 @@ class NewLinksPredecessor(Contract):
 @register
 class PredecessorOnlySetOnFreshObjects(Contract):
     """Structural: _predecessor is assigned only in __init__ (None, on the object under construction) and in
-    _new (on the list it has just constructed) - hence predecessor chains are acyclic and never change."""
+    _new (on the list it has just constructed) - hence predecessor chains are acyclic and never change.  (Setting it to None on a
+    list the same function has just constructed is the one other assignment allowed: it can only cut a link of a fresh list.)"""
     file, qualname, prop, variant = F, "ListOfDicts._new", "C17", "structural: assignments to _predecessor"
 
     def setup(self, cx):
@@ -928,8 +929,17 @@ class PredecessorOnlySetOnFreshObjects(Contract):
         for fn in cls.body:
             if not isinstance(fn, _ast.FunctionDef):
                 continue
+            # cutting the link (= None) on a list the same function has just built with self._new(...) / self.__class__(...) keeps
+            # chains acyclic and changes no existing list: allowed anywhere (aggregate does it: its result hands on no item)
+            fresh = {_ast.unparse(a.targets[0]) for a in _ast.walk(fn) if isinstance(a, _ast.Assign) and len(a.targets) == 1
+                     and isinstance(a.value, _ast.Call) and _ast.unparse(a.value.func) in ("self._new", "self.__class__")}
+            cuts = {id(a.targets[0]) for a in _ast.walk(fn) if isinstance(a, _ast.Assign) and len(a.targets) == 1
+                    and isinstance(a.value, _ast.Constant) and a.value.value is None and isinstance(a.targets[0], _ast.Attribute)
+                    and _ast.unparse(a.targets[0].value) in fresh}
             for n in _ast.walk(fn):
                 if isinstance(n, _ast.Attribute) and n.attr == "_predecessor" and isinstance(n.ctx, (_ast.Store, _ast.Del)):
+                    if id(n) in cuts and fn.name not in ("__init__", "_new"):
+                        continue
                     sites.append((fn.name, _ast.unparse(n.value)))
                 if isinstance(n, _ast.Call) and isinstance(n.func, _ast.Name) and n.func.id in ("setattr", "delattr"):
                     sites.append((fn.name, "setattr/delattr call"))
@@ -1354,6 +1364,12 @@ class LoDCompositesBounded(Contract):
         cx.premise("full_join delegates to left_join, anti_join, sort", {"left_join", "anti_join", "sort"} <= called)
         agg = mod.find("ListOfDicts.aggregate")[0]
         called = {n.func.attr for n in _ast.walk(agg) if isinstance(n, _ast.Call) and isinstance(n.func, _ast.Attribute)}
+        for helper in sorted(c for c in called if c.startswith("_")):          # through private helpers of the class (one level)
+            try:
+                hn = mod.find("ListOfDicts." + helper)[0]
+                called |= {n.func.attr for n in _ast.walk(hn) if isinstance(n, _ast.Call) and isinstance(n.func, _ast.Attribute)}
+            except Exception:
+                pass
         cx.premise("aggregate finds the group keys with unique and orders them with sort", {"unique", "sort"} <= called)
 
 
